@@ -163,7 +163,7 @@ def run(tier, seed, started):
     need = {('depth<=limit', 'natural'), ('depth<=limit', 'forced'),
             ('depth=limit+1', 'natural'), ('depth=limit+1', 'forced')}
     if not need <= {r[:2] for r in rel} or not c.get('restarts'):
-        raise common.Broken(f'vacuous C15 run: {rel} {c}')
+        common.vacuous(PROP, res, f'vacuous C15 run: {rel} {c}')
     coverage = {
         'evaluations': c['executions'],
         'distinct_nontrivial': len(rel) + len(cases) // 2,
